@@ -42,7 +42,7 @@ def odml_tuple_import(t_count, new_value):
                 for tuple_val in n_val:
                     n_val_str += str(tuple_val) + "; "
                 return_value += [n_val_str[:-2] + ")"]
-        else:
+        elif isinstance(n_val, str):
             cln = n_val.strip()
             br_check = cln.count("(") == cln.count(")")
             sep_check = t_count == 1 or cln.count("(") == (cln.count(";") / (t_count - 1))
